@@ -663,4 +663,7 @@ def check(run: Run) -> None:
     check_bookkeeping(run)
     check_parser_pairing(run)
     check_mappers(run)
+    from . import c05
+
+    c05.check_prepass_protection(run, "R07.5")
     run.assume("the multiset equality between injected rewrites and receipts on concrete documents (exact original text, line, column of each occurrence) is not decided; only the pairing, bookkeeping and wiring conditions above")
